@@ -194,6 +194,13 @@ def callFn {ρ ρ' : Type} (m : M TS PyExc ρ Unit) : M TS PyExc ρ' Unit := fun
   isCurrentTask _ := cur
   abort := abortP
   awaitSimtask := awaitSim env .simtask
+  -- `asyncio.wait` does not cancel the tasks it waits for and never raises their exceptions: when the CALLER is
+  -- cancelled while it waits, the await is logged, the environment runs, there is NO `rawCancel` step and the await
+  -- raises the caller's CancelledError; otherwise it returns normally (when the simulation task is done)
+  waitSimtask := awaitM env .simtask
+  simtaskCancelled s := match s.st.error with | some e => e.isCancel | none => false
+  -- `Task.exception()` of the finished simulation task: what `run_forever` raised (`raise self._error`)
+  simtaskException := fun s => (s, .next ((runForeverRaises s.st).map PyExc.err))
 
 @[reducible] def wiPrims (env : Nat → St → St) : TrE.WaitInitPrims TS PyExc Unit where
   mkExc := mkExc
